@@ -72,6 +72,7 @@ struct Engine
     uint64_t pairs_checked = 0, triples_checked = 0, comparisons = 0, vec_pairs = 0;
     uint64_t nontrivial_pairs = 0;
     uint64_t shared_address_pairs = 0;
+    uint64_t byte_twins = 0;
     std::vector<std::string> trace;
     uint64_t hash = 0;
 
@@ -184,6 +185,42 @@ struct Engine
         return v;
     }
 
+    // Lists whose fields are all one byte wide and unaligned: the bytes of an element, cut according to OTHER fixed sizes, may
+    // again be a well-formed element (the count bytes have to fall into place). Such a twin has exactly the same bytes in
+    // memory and different field sizes: bytewise comparison alone calls them equal.
+    static bool all_single_bytes()
+    {
+        for (auto& f : Cfg::fields())
+            if (f.size != 1 || f.align != 1 || std::string(f.tname) == "bool") return false;
+        return true;
+    }
+
+    static bool recut(const MElem& e, const std::vector<size_t>& fixed2, MElem& out)
+    {
+        std::vector<int64_t> bytes;
+        for (auto& fl : e.f)
+            for (auto x : fl) bytes.push_back(x & 0xFF);
+        const auto& f = Cfg::fields();
+        out = MElem{};
+        out.f.resize(NF);
+        size_t pos = 0, fi = 0, cnt = 0;
+        for (size_t k = 0; k < NF; ++k)
+        {
+            size_t n = 1;
+            if (f[k].kind == 'F') n = fixed2[fi++];
+            if (f[k].kind == 'V') n = cnt;
+            if (pos + n > bytes.size()) return false;
+            for (size_t t = 0; t < n; ++t) out.f[k].push_back(G::project_field(k, bytes[pos + t]));
+            if (f[k].kind == 'C')
+            {
+                if (out.f[k][0] < 0) return false;  // a signed count type
+                cnt = static_cast<size_t>(out.f[k][0]);
+            }
+            pos += n;
+        }
+        return pos == bytes.size();
+    }
+
     static size_t payload(const std::vector<MElem>& es)
     {
         size_t p = 0;
@@ -279,6 +316,17 @@ struct Engine
             es.push_back(resized(es[4]));
             es.push_back(variant(es[n_elems], nontrivial));
             es.push_back(random_elem(fixed2));
+            if (all_single_bytes())
+                for (size_t base : {size_t{0}, size_t{1}, size_t{2}, size_t{5}})
+                {
+                    MElem twin;
+                    if (recut(es[base], fixed2, twin))
+                    {
+                        es.back() = twin;  // same bytes as es[base], other field sizes
+                        ++byte_twins;
+                        break;
+                    }
+                }
             n_other = 4;
             nontrivial = true;
         }
@@ -400,7 +448,7 @@ struct Engine
         // ---- vector level
         set_ctx(cno, 2, "compare_vectors", "pool", "C13,C14,C02", "");
         std::vector<std::vector<size_t>> lv = {{}, {0}, {0, 2}, {0, 2, 4}, {1}, {1, 2}, {2}, {0, 3}, {4, 5}, {5}};
-        if (n_other) lv.insert(lv.end(), {{n_same}, {n_same, n_same + 2}, {n_same + 1}, {n_same + 3, n_same}});
+        if (n_other) lv.insert(lv.end(), {{n_same}, {n_same, n_same + 2}, {n_same + 1}, {n_same + 3, n_same}, {n_same + 3}});
         const size_t L = lv.size();
         std::vector<VecA> va1, va2;
         std::vector<VecB> vb;
@@ -551,6 +599,7 @@ int main(int argc, char** argv)
     cn.add("vector_pairs", e.vec_pairs);
     cn.add("triples", e.triples_checked);
     cn.add("empty_vs_vector_at_same_block_address", e.shared_address_pairs);
+    cn.add("pools_with_a_byte_identical_twin_of_other_field_sizes", e.byte_twins);
     cn.add("operator_evaluations", e.comparisons * 6);
     emit(J().kv("t", "summary").raw("ops", cn.json()).raw("counters", counters().json()).kv("steps", e.pairs_checked).kv("avoided", 0).raw("prestate_op", "[]").kv("objects_constructed", registry().constructed).kv("objects_destroyed", registry().destroyed).kv("alloc_events", ledger().alloc_events).kv("dealloc_events", ledger().dealloc_events).str());
     return 0;
